@@ -156,9 +156,14 @@ func cutSeq(q []bseg, lo, hi int64) ([]bseg, bool) {
 			break
 		}
 		if s.N < 0 {
-			// a segment of unknown length can only be taken whole, as the tail
+			// a segment of unknown length can only be taken whole, as the tail …
 			if hi < 0 && pos >= lo {
 				out = append(out, s)
+				return out, true
+			}
+			// … or, for a symbolic input, by its leading bytes (x[:k] of a buffer assumed to be at least k long)
+			if s.Kind == "sym" && s.Hi < 0 && hi >= 0 && pos >= lo && pos == lo {
+				out = append(out, bseg{Kind: "sym", Src: s.Src, Lo: s.Lo, Hi: s.Lo + (hi - pos), N: hi - pos})
 				return out, true
 			}
 			return out, false
@@ -250,6 +255,31 @@ func (e *bsEval) eval(v ssa.Value) ([]bseg, bool) {
 				if sv := cellValue(a, x); sv != nil {
 					return e.eval(sv)
 				}
+			}
+			// *p for a pointer obtained elsewhere (a pooled *[]byte): the value of the last store through p that
+			// dominates this load, or — before any store — the content the pointer came with (a symbol of its own)
+			if _, isAlloc := x.X.(*ssa.Alloc); !isAlloc && x.X.Referrers() != nil {
+				var last *ssa.Store
+				for _, r := range *x.X.Referrers() {
+					st, ok := r.(*ssa.Store)
+					if !ok || st.Addr != x.X {
+						continue
+					}
+					if !instrDominates(st, x) {
+						if st.Block() != x.Block() && blockReaches(st.Block(), x.Block(), false) {
+							// a store on some but not all ways here: the content is not determined
+							return []bseg{{Kind: "sym", Src: v, Lo: 0, Hi: -1, N: -1}}, true
+						}
+						continue
+					}
+					if last == nil || instrDominates(last, st) {
+						last = st
+					}
+				}
+				if last != nil {
+					return e.eval(last.Val)
+				}
+				return []bseg{{Kind: "sym", Src: x.X, Lo: 0, Hi: -1, N: -1}}, true
 			}
 		}
 	}
